@@ -2130,7 +2130,9 @@ impl<'a> Socket<'a> {
                         }
                     );
 
-                    if self.local_rx_dup_acks == 3 {
+                    // Only data can be fast-retransmitted; a lone FIN in flight stays covered
+                    // by the retransmission timer.
+                    if self.local_rx_dup_acks == 3 && !self.tx_buffer.is_empty() {
                         self.timer.set_for_fast_retransmit();
                         net_debug!("started fast retransmit");
                     }
